@@ -3,13 +3,13 @@
 cd /verif
 for w in "$@"; do
   for x in a b c; do
-    src=/tmp/seed-out4/$w/$w$x
+    src=${OUTDIR:-/tmp/seed-out4}/$w/$w$x
     [ -f $src.diff ] || continue
     d=seeded/$w$x; mkdir -p $d
     cp $src.diff $d/patch.diff; cp ${src}_demo.py $d/demo.py; cp $src.md $d/notes.md 2>/dev/null
     grep -m1 -oE "C[0-9]{2}" $d/notes.md > $d/props
     echo -n "$w$x($(cat $d/props)) "
   done
-  git -C /repo worktree remove --force /tmp/wt5/$w 2>/dev/null
+  git -C /repo worktree remove --force ${WTDIR:-/tmp/wt5}/$w 2>/dev/null
 done
 echo
